@@ -6,7 +6,8 @@ worker: each task logs {pid, file, position of the task in that worker's life, i
 fft_settings of the settings objects before/after}.  The offline checker reconstructs from the log the
 observed schedule (which worker processed which files in which order) and checks exactly-once
 processing; the oracle compares every <stem>.csv byte for byte with the CSV written by the library
-pipeline for that file alone in a fresh process with freshly loaded settings.
+pipeline for that file alone in a fresh process with freshly loaded settings, and the set of CSV files
+found in the working directory with {<stem>.csv of every input}.
 """
 
 import json
@@ -22,7 +23,8 @@ PROPERTY = "C19"
 NUM = 19
 RULE = ("cases = a set of 2-8 miniSEED files written by the harness (sampling rates 100/200/250/500 Hz, durations chosen so "
         "that the window length falls on both sides of 2^15 samples and the FFT length chosen for one file differs from "
-        "another's) x processing settings (traditional / azimuthal / diffuse field) x distribution options; per case several "
+        "another's; names with dotted station codes, stems ending in letters of the extension, .mseed/.miniseed, files in a "
+        "sub-directory or given by absolute path) x processing settings (traditional / azimuthal / diffuse field) x distribution options; per case several "
         "batches: orders (all for <= 3 files, random above) x --nproc in {1,2,3,n,16} x injected per-task delays; non-trivial = "
         "a batch with >= 2 files of different FFT length sharing a worker, or >= 2 workers; distinct = observed schedules "
         "(worker -> ordered file list) and (settings kind, rates, nproc, order) signatures")
@@ -34,7 +36,7 @@ ASSUMPTIONS = [
 NOT_REACHED = ["figure output (--no_figure is always set)", "more than 8 files per batch", "start methods other than fork"]
 BUDGET = {"quick": dict(cases=8, seconds=70, shards=4),
           "thorough": dict(cases=256, seconds=900, shards=16)}
-REQUIRED = ["mon:csv-equals-library-pipeline", "mon:every-file-processed-exactly-once", "task_events", "cli_runs"]
+REQUIRED = ["mon:csv-equals-library-pipeline", "mon:every-file-processed-exactly-once", "mon:one-output-per-input-file", "task_events", "cli_runs"]
 
 HERE = os.path.dirname(os.path.dirname(os.path.dirname(os.path.abspath(__file__))))
 
@@ -121,6 +123,12 @@ def schedule_of(events):
     return sched, calls
 
 
+def csv_name(fn):
+    """<stem>.csv: the input's base name with its last extension replaced."""
+    base = os.path.basename(fn)
+    return base[:base.rindex(".")] + ".csv"
+
+
 def fam_batch(ctx, rng):
     d = tempfile.mkdtemp(prefix="c19-", dir=os.environ.get("HVMON_SCRATCH"))
     try:
@@ -132,8 +140,17 @@ def fam_batch(ctx, rng):
         if 500 not in rates:
             rates[int(rng.integers(0, nfiles))] = 500         # 70-80 s at 500 Hz > 2^15 samples -> FFT length 65536
         files = []
+        os.makedirs(os.path.join(d, "data"))
         for i, fs in enumerate(rates):
-            fn = f"f{i}_{fs}hz.mseed"
+            # file names as users have them: station codes with dots, stems that end in letters of the extension,
+            # either extension spelling, files in a sub-directory or given by absolute path (output: <stem>.csv in the cwd)
+            stem = [f"f{i}_{fs}hz", f"st{i}_e", f"{i}site_s", f"UT.ST{i}.A2_C5{i}", f"rec{i}.m", f"line{i}d", f"n{i}.seed"][int(rng.integers(0, 7))]
+            fn = stem + str(rng.choice([".mseed", ".miniseed", ".mseed"]))
+            k = rng.random()
+            if k < 0.2:
+                fn = os.path.join("data", fn)
+            elif k < 0.3:
+                fn = os.path.join(d, "data", fn)
             write_mseed(os.path.join(d, fn), rng, fs, float(wl * rng.choice([2.1, 3.1])))
             files.append(fn)
         dmc = str(rng.choice(["lognormal", "normal"]))
@@ -142,7 +159,7 @@ def fam_batch(ctx, rng):
         os.makedirs(refdir)
         refs = {}
         for fn in files:
-            out = os.path.join(refdir, os.path.splitext(fn)[0] + ".csv")
+            out = os.path.join(refdir, csv_name(fn))
             p = run_reference(d, pre_f, proc_f, fn, out, dmc, dfn)
             ctx.count("reference_runs")
             if p.returncode != 0 or not os.path.exists(out):
@@ -160,10 +177,9 @@ def fam_batch(ctx, rng):
                 order = sorted(range(nfiles), key=lambda i: -rates[i])      # large FFT first, small ones after it
             nproc = nprocs[b % len(nprocs)] if b < 2 else nprocs[int(rng.integers(0, len(nprocs)))]
             batch = [files[i] for i in order]
-            for fn in files:
-                c = os.path.join(d, os.path.splitext(fn)[0] + ".csv")
-                if os.path.exists(c):
-                    os.remove(c)
+            for c in os.listdir(d):
+                if c.endswith(".csv"):
+                    os.remove(os.path.join(d, c))
             p, events = run_cli(d, pre_f, proc_f, batch, nproc, dmc, dfn, delay_seed=int(rng.integers(0, 10 ** 6)))
             ctx.count("cli_runs")
             ctx.count("task_events", len(events))
@@ -178,7 +194,7 @@ def fam_batch(ctx, rng):
                     ctx.extra_totals.update(e["totals"])
             sched, calls = schedule_of(events)
             done = sorted(os.path.basename(e["file"]) for e in calls)
-            ctx.check(done == sorted(batch) and len([e for e in events if e["ev"] == "return"]) == len(batch),
+            ctx.check(done == sorted(os.path.basename(b) for b in batch) and len([e for e in events if e["ev"] == "return"]) == len(batch),
                       "every-file-processed-exactly-once", "task log: a file was processed twice or not at all",
                       processed=done, **info)
             info["schedule"] = {str(k): v for k, v in sched.items()}
@@ -186,8 +202,12 @@ def fam_batch(ctx, rng):
             # diagnostic: a task that finds an FFT length already present in its settings object
             leaked = [os.path.basename(e["file"]) for e in calls if e.get("proc_fft_before")]
             bad = []
+            written = sorted(c for c in os.listdir(d) if c.endswith(".csv"))
+            ctx.check(written == sorted(csv_name(fn) for fn in batch), "one-output-per-input-file",
+                      "the CSV files found in the working directory are not exactly <stem>.csv of every input file",
+                      written=written, expected=sorted(csv_name(fn) for fn in batch), **info)
             for fn in batch:
-                c = os.path.join(d, os.path.splitext(fn)[0] + ".csv")
+                c = os.path.join(d, csv_name(fn))
                 if not os.path.exists(c):
                     bad.append((fn, "missing"))
                     continue
